@@ -115,6 +115,9 @@ Proof.
         destruct (locked_by_other g t); [rewrite exit_raise_eq; apply TS_exit|apply TS_go].
       * destruct (negb (get_ok (tview g view) cached id)); [rewrite exit_raise_eq; apply TS_exit|].
         destruct (locked_by_other g t); [rewrite exit_raise_eq; apply TS_exit|apply TS_go].
+      * destruct (locked_by_other g t); [rewrite exit_raise_eq; apply TS_exit|apply TS_go].
+      * destruct (locked_by_other g t); [rewrite exit_raise_eq; apply TS_exit|apply TS_go].
+      * destruct (locked_by_other g t); [rewrite exit_raise_eq; apply TS_exit|apply TS_go].
       * rewrite exit_raise_eq. apply TS_exit.
 Qed.
 
@@ -165,6 +168,9 @@ Proof.
         destruct (tbl_insert [a; b] (tview g view)) as [id v']. reflexivity.
       * destruct (negb (get_ok (tview g view) cached id)); [apply E|]. destruct (locked_by_other g t); [apply E|]. reflexivity.
       * destruct (negb (get_ok (tview g view) cached id)); [apply E|]. destruct (locked_by_other g t); [apply E|]. reflexivity.
+      * destruct (locked_by_other g t); [apply E|]. reflexivity.
+      * destruct (locked_by_other g t); [apply E|]. reflexivity.
+      * destruct (locked_by_other g t); [apply E|]. reflexivity.
       * apply E.
 Qed.
 
@@ -290,6 +296,9 @@ Proof.
         destruct (tbl_insert [a; b] (tview g view)) as [id v']. apply Go; reflexivity.
       * destruct (negb (get_ok (tview g view) cached id)); [apply Eraise|]. destruct (locked_by_other g t) eqn:Hlo; [apply Eraise|]. apply Go; reflexivity.
       * destruct (negb (get_ok (tview g view) cached id)); [apply Eraise|]. destruct (locked_by_other g t) eqn:Hlo; [apply Eraise|]. apply Go; reflexivity.
+      * destruct (locked_by_other g t) eqn:Hlo; [apply Eraise|]. apply Go; reflexivity.
+      * destruct (locked_by_other g t) eqn:Hlo; [apply Eraise|]. apply Go; reflexivity.
+      * destruct (locked_by_other g t) eqn:Hlo; [apply Eraise|]. apply Go; reflexivity.
       * apply Eraise.
   - split; [exact IL|]. split; [exact IP|]. split; [exact IT|exact IK].
 Qed.
@@ -408,6 +417,12 @@ Proof.
       * apply (Go (tbl_delete id (tview g view)) (remove_id id cached) created);
           [unfold tick; rewrite Hph; cbv zeta; rewrite Eg, Hl; reflexivity|cbn [body_run]; rewrite Eg; reflexivity].
       * apply (Raise XNotFound); [unfold tick; rewrite Hph; cbv zeta; rewrite Eg; reflexivity|cbn [body_run]; rewrite Eg; reflexivity].
+    + apply (Go (tbl_update id c v (tview g view)) cached created);
+        [unfold tick; rewrite Hph; cbv zeta; rewrite Hl; reflexivity|reflexivity].
+    + apply (Go (tbl_delete id (tview g view)) (remove_id id cached) created);
+        [unfold tick; rewrite Hph; cbv zeta; rewrite Hl; reflexivity|reflexivity].
+    + apply (Go (tbl_delete id (tview g view)) cached created);
+        [unfold tick; rewrite Hph; cbv zeta; rewrite Hl; reflexivity|reflexivity].
     + apply (Raise (XUser n)); [unfold tick; rewrite Hph; reflexivity|reflexivity].
 Qed.
 
